@@ -67,7 +67,8 @@ fn analyse(dir: &Path, own: ActorId, other: ActorId) -> String {
     )
 }
 
-/// case: crash <nops> { L k {id}*k | LF | W v k {rowid}*k | D v s e last k {seq}*k | E lo hi | A v | C } <restart 0/1>
+/// case: crash <nops> { L k {id}*k | LF | W v k {rowid}*k | D v s e last k {seq}*k | E lo hi | A v | C | O v s e last k {seq}*k } <restart 0/1>
+///   (O: a partial chunk of version v of a SECOND remote actor)
 pub fn crash(t: &mut Toks) -> String {
     let rt = tokio::runtime::Builder::new_multi_thread().worker_threads(3).enable_all().build().unwrap();
     enum Op {
@@ -78,6 +79,7 @@ pub fn crash(t: &mut Toks) -> String {
         E(u64, u64),
         A(u64),
         C,
+        O(u64, u64, u64, u64, Vec<u64>),
     }
     let nops = t.usize();
     let mut ops = vec![];
@@ -104,6 +106,14 @@ pub fn crash(t: &mut Toks) -> String {
             "E" => Op::E(t.u64(), t.u64()),
             "A" => Op::A(t.u64()),
             "C" => Op::C,
+            "O" => {
+                let v = t.u64();
+                let s = t.u64();
+                let e = t.u64();
+                let last = t.u64();
+                let k = t.usize();
+                Op::O(v, s, e, last, (0..k).map(|_| t.u64()).collect())
+            }
             x => panic!("bad op {x}"),
         });
     }
@@ -157,6 +167,13 @@ pub fn crash(t: &mut Toks) -> String {
                 Op::A(v) => {
                     let _ = process_fully_buffered_changes(&agent, &bookie, actor, CrsqlDbVersion(v), tmo).await;
                 }
+                Op::O(v, s, e, last, seqs) => {
+                    // a partial chunk of ANOTHER actor's version with the same number
+                    let other = actor_of(6);
+                    let changes = seqs.iter().map(|q| agentkit::mk_change(other, v, *q, (2_000_000 + v * 1000 + q) as i64, "o", 1, 1)).collect();
+                    let c = agentkit::full(other, v, changes, s, e, last, 1);
+                    let _ = process_multiple_changes(agent.clone(), bookie.clone(), vec![(c, ChangeSource::Sync, Instant::now())], tmo).await;
+                }
                 Op::C => {
                     while let Ok(req) = rx_clear.try_recv() {
                         tx_my_clear.send(req).await.unwrap();
@@ -179,7 +196,21 @@ pub fn crash(t: &mut Toks) -> String {
                     None => "-".to_string(),
                 }
             };
-            outs.push(format!("{} live5[{}] {}", a, live, ack).trim().to_string());
+            // the other actor: what a restart would rebuild for it vs what the live node holds
+            let other = actor_of(6);
+            let reload6 = tokio::task::block_in_place(|| {
+                let conn = CrConn::init(Connection::open(dst.join("corrosion.db")).unwrap()).unwrap();
+                setup_conn(&conn).unwrap();
+                c02::fmt_bv(&BookedVersions::from_conn(&conn, other).unwrap())
+            });
+            let live6 = {
+                let b = { bookie.read::<&str, _>("verif", None).await.get(&other).cloned() };
+                match b {
+                    Some(b) => c02::fmt_bv(&*b.read::<&str, _>("verif", None).await),
+                    None => "-".to_string(),
+                }
+            };
+            outs.push(format!("{} live5[{}] {} a6[{}] live6[{}]", a, live, ack, reload6, live6).replace("  ", " ").trim().to_string());
         }
         if restart && n > 0 {
             // a real agent on the files of the last crash point
